@@ -46,6 +46,8 @@ structure St where
   histC  : Array String := #[]
   rrC    : String := ""
   rrN    : Nat := 0
+  -- a log file was cut in the middle of a record (harness op srv.tear kind=bytes): the next start has to fail
+  tornBytes : Bool := false
 
 def mkV (o : Std.HashMap String Bool) (dflt : Bool) : Verify :=
   fun k m s => (o.get? (hexOfBytes k ++ "|" ++ hexOfBytes m ++ "|" ++ hexOfBytes s)).getD dflt
@@ -160,6 +162,35 @@ def snapshotC (st : St) : String :=
     s!"servers={hx (AuthServer.encodeList s.servers)}", s!"migs={joinWith "," migs}",
     s!"dl={s.disk.auths.length},{s.disk.reports.length},{s.disk.weeks.length}"]
 
+def handleSrvOp (st : St) (kind : String) (a : Args) (obs : String) : IO St := do
+  match srvOp kind a with
+  | none => report st kind "unparsable-op" obs
+  | some op =>
+    let missing := (needed st.srv op).filter (fun (k, m, sg) =>
+      !(st.oracle.contains (hexOfBytes k ++ "|" ++ hexOfBytes m ++ "|" ++ hexOfBytes sg)))
+    let st := if missing.isEmpty then st else { st with misses := st.misses + 1 }
+    if !missing.isEmpty then
+      IO.println s!"ORACLE-MISS line={st.lines} {kind}"
+    let old := st.srv
+    let (s1, o1) := step st.cfg (mkV st.oracle false) noSign st.srv op
+    if obs == "CRASH" then
+      -- the process died inside this operation after its file write: only the disk effect survives
+      return refresh { st with srv := s1 } old (some op)
+    let st := refresh { st with srv := s1 } old (some op)
+    -- observed: "<out>" optionally followed by " #<hash of snapshot after the op>"
+    let (obsOut, obsHash) := match obs.splitOn " #" with
+      | [x, h] => (x, some ("#" ++ h))
+      | _ => (obs, none)
+    let mOut := out o1
+    -- "?": the output of an operation that ran inside a parallel burst is not known individually
+    let st ← if obsOut == "?" || sameObs mOut obsOut then pure st else report st kind mOut obsOut
+    match obsHash with
+    | none => return st
+    | some h =>
+      let m := snapshotC st
+      if sameObs m h then return st else report st (kind ++ ":state-after") ("#" ++ hex64 (fnv64 m)) h
+
+
 def handleSrv (st : St) (kind : String) (a : Args) (obs : String) : IO St := do
   match kind with
   | "srv.cfg" =>
@@ -174,9 +205,16 @@ def handleSrv (st : St) (kind : String) (a : Args) (obs : String) : IO St := do
   | "srv.tear" =>
     -- a crash left the directory in a torn state (the process is gone: only the disk matters)
     let d := st.srv.disk
+    if arg a "kind" == "bytes" then return { st with tornBytes := true }
     let d' := if arg a "kind" == "gca" then { d with gcaKey := some [] }
               else { d with reports := d.reports.take (argNat a "n") }
     return { st with srv := { st.srv with disk := d' } }
+  | "srv.restart" =>
+    if st.tornBytes then
+      -- every loader refuses a log that ends inside a record; nothing else is claimed about such a directory
+      let st := { st with tornBytes := false }
+      if obs == "fail" then return st else report st kind "fail" obs
+    else handleSrvOp st kind a obs
   | "srv.snap" =>
     let m := snapshotC st
     if sameObs m obs then return st else report st kind m obs
@@ -224,33 +262,7 @@ def handleSrv (st : St) (kind : String) (a : Args) (obs : String) : IO St := do
     let m := joinWith ";" ((natSort (eq.map (·.1))).filterMap (fun id =>
       (eq.find? (fun p => p.1 == id)).map (fun p => s!"{id}:{hexOfBytes (Auth.encode p.2)}")))
     if sameObs m obs then return st else report st kind m obs
-  | _ =>
-    match srvOp kind a with
-    | none => report st kind "unparsable-op" obs
-    | some op =>
-      let missing := (needed st.srv op).filter (fun (k, m, sg) =>
-        !(st.oracle.contains (hexOfBytes k ++ "|" ++ hexOfBytes m ++ "|" ++ hexOfBytes sg)))
-      let st := if missing.isEmpty then st else { st with misses := st.misses + 1 }
-      if !missing.isEmpty then
-        IO.println s!"ORACLE-MISS line={st.lines} {kind}"
-      let old := st.srv
-      let (s1, o1) := step st.cfg (mkV st.oracle false) noSign st.srv op
-      if obs == "CRASH" then
-        -- the process died inside this operation after its file write: only the disk effect survives
-        return refresh { st with srv := s1 } old (some op)
-      let st := refresh { st with srv := s1 } old (some op)
-      -- observed: "<out>" optionally followed by " #<hash of snapshot after the op>"
-      let (obsOut, obsHash) := match obs.splitOn " #" with
-        | [x, h] => (x, some ("#" ++ h))
-        | _ => (obs, none)
-      let mOut := out o1
-      -- "?": the output of an operation that ran inside a parallel burst is not known individually
-      let st ← if obsOut == "?" || sameObs mOut obsOut then pure st else report st kind mOut obsOut
-      match obsHash with
-      | none => return st
-      | some h =>
-        let m := snapshotC st
-        if sameObs m h then return st else report st (kind ++ ":state-after") ("#" ++ hex64 (fnv64 m)) h
+  | _ => handleSrvOp st kind a obs
 
 /-! Small stateless families -/
 
